@@ -189,6 +189,14 @@ func (r *coreRun) opt(o coreOpt) slog.Opt {
 		return slog.WithAttrs1(r.sharedAttrs(o.A, o.B))
 	case "SetKV":
 		return slog.With(attrName(o.A), o.B)
+	case "Attrs0":
+		switch o.A % 3 {
+		case 0:
+			return slog.WithAttrs()
+		case 1:
+			return slog.With()
+		}
+		return slog.WithAttrs1(nil)
 	case "Writer":
 		return slog.WithWriter(getWriter(o.A))
 	case "AddWriter":
@@ -229,6 +237,16 @@ func (r *coreRun) set(l *slog.Entry, k string, a, b int) *slog.Entry {
 		return l.SetAttrs1(r.sharedAttrs(a, b))
 	case "SetKV":
 		return l.Set(attrName(a), b)
+	case "Attrs0":
+		switch a % 4 {
+		case 0:
+			return l.SetAttrs()
+		case 1:
+			return l.Set()
+		case 2:
+			return l.SetAttrs1(nil)
+		}
+		return l.SetContextKeys()
 	case "Skip":
 		l.SetSkip(a)
 		return l
@@ -278,6 +296,16 @@ func (r *coreRun) with(l *slog.Entry, k string, a, b int) *slog.Entry {
 		return l.WithAttrs1(r.sharedAttrs(a, b))
 	case "SetKV":
 		return l.With(attrName(a), b)
+	case "Attrs0":
+		switch a % 4 {
+		case 0:
+			return l.WithAttrs()
+		case 1:
+			return l.With()
+		case 2:
+			return l.WithAttrs1(slog.Attrs{})
+		}
+		return l.WithContextKeys()
 	case "Skip":
 		return l.WithSkip(a)
 	case "CtxKeys":
@@ -331,6 +359,8 @@ func (r *coreRun) exec(ev coreEvent) (rec map[string]any) {
 		slog.SetLevel(slog.Level(ev.A))
 	case "SetDefault":
 		slog.SetDefault(l)
+	case "DbgMode":
+		is.SetDebugMode(ev.A == 1)
 	case "Flags":
 		r.flagsOp(ev)
 	case "PkgLevel":
@@ -464,6 +494,16 @@ func (r *coreRun) observe(rec map[string]any) {
 						evs = []wev{}
 					}
 					dests = append(dests, map[string]any{"r": sev, "evs": evs})
+					if sev == int(slog.AlwaysLevel) {
+						// a blank Print is routed and announced like any other Always record
+						sink.reset()
+						l.WriteThru(context.Background(), slog.AlwaysLevel, r.ts, 0, "", nil)
+						evs2 := takeAll()
+						if evs2 == nil {
+							evs2 = []wev{}
+						}
+						dests = append(dests, map[string]any{"r": sev, "evs": evs2})
+					}
 				}
 			}
 			if r.obs["dest"] {
